@@ -316,6 +316,13 @@ fn gen_setup(ctx: &Ctx, rng: &mut Rng) -> Setup {
     let mut world = World::new("/w");
     world.put_file("/w/p/in_path.sol", marker("path"), Fault::None);
     world.put_file("/w/t/in_toml.sol", marker("toml"), Fault::None);
+    // directories whose names contain upper-case letters, each with a lower-case decoy next to it
+    world.put_file("/w/Pd/in_path_uc.sol", marker("pathuc"), Fault::None);
+    world.put_file("/w/Tml/in_toml_uc.sol", marker("tomluc"), Fault::None);
+    if rng.chance(1, 2) {
+        world.put_file("/w/pd/in_decoy_p.sol", marker("decoyp"), Fault::None);
+        world.put_file("/w/tml/in_decoy_t.sol", marker("decoyt"), Fault::None);
+    }
     let contracts_present = rng.chance(1, 2);
     if contracts_present {
         world.put_file("/w/contracts/in_default.sol", marker("default"), Fault::None);
@@ -328,7 +335,7 @@ fn gen_setup(ctx: &Ctx, rng: &mut Rng) -> Setup {
     // --path may also name the default directory explicitly (a value equal to the default is still a
     // given value)
     let path_spelling = rng
-        .pick(&["/w/p", "./p", "p", "p/", "./contracts", "contracts", "/w/contracts", "./t", "./nope", "/w/cfg.toml"])
+        .pick(&["/w/p", "./p", "p", "p/", "./contracts", "contracts", "/w/contracts", "./t", "./nope", "/w/cfg.toml", "/w/Pd", "./Pd", "Pd"])
         .to_string();
     let toml_file = rng.pick(&["/w/cfg.toml", "/w/conf/Solstat.toml"]).to_string();
     let mut toml = None;
@@ -361,7 +368,7 @@ fn gen_setup(ctx: &Ctx, rng: &mut Rng) -> Setup {
             }
             lists.push(v);
         }
-        let tpath = rng.pick(&["/w/t", "./t", "t", "/w/t", "./t", "./nope"]).to_string();
+        let tpath = rng.pick(&["/w/t", "./t", "t", "/w/Tml", "./Tml", "Tml", "./nope"]).to_string();
         let text = crate::c18::toml_text(&tpath, &lists[0], &lists[1], &lists[2]);
         world.put_file(&toml_file, text.into_bytes(), Fault::None);
         toml = Some(TomlModel {
@@ -629,6 +636,8 @@ pub fn judge(s: &Setup, ctx: &Ctx) -> Judged {
         "/w/p" => "in_path.sol",
         "/w/t" => "in_toml.sol",
         "/w/contracts" => "in_default.sol",
+        "/w/Pd" => "in_path_uc.sol",
+        "/w/Tml" => "in_toml_uc.sol",
         _ => "",
     };
     let _ = roots;
@@ -716,6 +725,10 @@ impl Property for C14 {
     );
         r.probe("default_contracts_used", s.path_arg.is_none() && s.toml.is_none());
         r.probe("failed_status_seen", j.status != 0);
+    r.probe(
+        "configured_directory_with_upper_case_letters",
+        !j.has_unknown && s.path_arg.is_none() && s.toml.as_ref().map_or(false, |t| t.path.contains("Tml")),
+    );
     r.probe(
         "selected_directory_missing_while_another_exists",
         !j.has_unknown
@@ -846,6 +859,7 @@ impl Property for C14 {
             "path_flag_overrides_toml",
             "path_flag_spells_the_default_dir",
             "selected_directory_missing_while_another_exists",
+            "configured_directory_with_upper_case_letters",
             "default_contracts_used",
             "failed_status_seen",
         ]
